@@ -360,6 +360,15 @@ pub fn check_chain_via(
 		Some(r) => (vec![trusted_der.to_vec()], vec![r.to_vec()]),
 		None => (vec![], vec![trusted_der.to_vec()]),
 	};
+	// OpenSSL compares names after canonicalisation (string type and case are ignored). A leaf whose own subject
+	// is the same name as its issuer's under that comparison (e.g. L="" as T61String vs L="" as UniversalString)
+	// looks self-issued to OpenSSL, which then reports "self-signed certificate": not a statement about rcgen.
+	let looks_self_issued = openssl::x509::X509::from_der(leaf.der())
+		.ok()
+		.map_or(false, |x| x.subject_name().try_cmp(x.issuer_name()).map_or(false, |o| o == std::cmp::Ordering::Equal));
+	if looks_self_issued && lv.subject.raw != lv.issuer.raw {
+		ctx.count("openssl_skipped_leaf_subject_equals_issuer_after_canonicalisation");
+	} else {
 	match ossl::openssl_verify(leaf.der(), &inter, &trust, &VerifyOpts::at(at)) {
 		Err(e) => ctx.note(format!("openssl verify harness error: {}", e)),
 		Ok(Ok(())) => ctx.count("eval:openssl_chain_accepted"),
@@ -369,6 +378,7 @@ pub fn check_chain_via(
 			text,
 			&format!("X509_verify_cert at {}: {}", at, why),
 		),
+	}
 	}
 	if ossl::webpki_supports(issuer_sig) && ossl::webpki_supports(leaf_key_sig) && at >= 0 {
 		let leaf_is_ca = ext_value(&lv, x509::OID_BC).map_or(false, |v| x509::parse_bc(v).map_or(false, |b| b.0));
